@@ -184,8 +184,9 @@ type Host struct {
 	NilDerefNormalize bool
 	// Entry selects the Go-side protected entry point RunProto uses (0 PCall MultRet, 1 PCall NRet 0, 2 PCall NRet 2,
 	// 3 CallByParam NRet 1, 4 CallByParam with a Go handler, 5 PCall with a Go handler); EntryJunk values are pushed first.
-	Entry     int
-	EntryJunk int
+	Entry      int
+	EntryJunk  int
+	Reattached int
 	// ExtraStep, when set, is called at every instruction boundary after the harness's own bookkeeping (scheduler pre-emption point).
 	ExtraStep func(L *lua.LState)
 }
@@ -249,6 +250,16 @@ func NewHost(o Options) *Host {
 	L.SetGlobal("luadepth", L.NewFunction(h.luadepth))
 	L.SetGlobal("hostcall", L.NewFunction(h.hostcall))
 	L.SetGlobal("hostpcall", L.NewFunction(h.hostpcall))
+	// reattach(): a host function that replaces the attached context by a fresh one in mid-run
+	// (a no-op when no context is attached); the simulator then fires the new one
+	L.SetGlobal("reattach", L.NewFunction(func(L *lua.LState) int {
+		if h.Ctx != nil && !h.Ctx.Fired() {
+			h.Ctx = NewSimContext()
+			L.SetContext(h.Ctx)
+			h.Reattached++
+		}
+		return 0
+	}))
 	if o.OnThread {
 		th, _ := L.NewThread()
 		if o.WithContext {
